@@ -130,6 +130,14 @@ func (e *Engine) Generate(r *core.Rand, prop string, tier string) core.Trace {
 			in.Name = "store"
 			w := []int{1, 2, 4, 8}[r.Intn(4)]
 			in.Effs = []Eff{{Mem: g.mem(), W: w, Val: g.operand(8), Addr: g.addrExpr()}}
+			if r.Chance(1, 5) { // store pair: two writes, mostly into the same space
+				in.Name = "store-pair"
+				m := in.Effs[0].Mem
+				if r.Chance(1, 4) {
+					m = g.mem()
+				}
+				in.Effs = append(in.Effs, Eff{Mem: m, W: w, Val: g.operand(8), Addr: g.addrExpr()})
+			}
 		case 3:
 			in.Name = "nop"
 		case 4:
@@ -160,6 +168,11 @@ func (e *Engine) Generate(r *core.Rand, prop string, tier string) core.Trace {
 			in.Name = "branch"
 			in.Effs = []Eff{{Reg: ipKey, W: 8, Val: refeval.LessJ(refeval.RegJ(g.reg(), 8), refeval.RegJ(g.reg(), 8),
 				refeval.ConstU(target(), 8), refeval.ConstU(next, 8), 8)}}
+			if r.Chance(1, 3) {
+				in.Name = "branch-relative"
+				in.Effs = []Eff{{Reg: ipKey, W: 8, Val: refeval.BinJ(int(expr.Add), refeval.ConstU(in.Addr, 8),
+					refeval.LessJ(refeval.RegJ(g.reg(), 8), refeval.RegJ(g.reg(), 8), refeval.ConstU(target()-in.Addr, 8), refeval.ConstU(uint64(in.Len), 8), 8), 8)}}
+			}
 		case 8:
 			in.Name = "regjump"
 			in.Effs = []Eff{{Reg: ipKey, W: 8, Val: refeval.RegJ(g.reg(), 8)}}
@@ -172,6 +185,14 @@ func (e *Engine) Generate(r *core.Rand, prop string, tier string) core.Trace {
 				in.Name = "branch-next"
 				in.Effs = []Eff{{Reg: ipKey, W: 8, Val: refeval.LessJ(refeval.RegJ(g.reg(), 8), refeval.RegJ(g.reg(), 8),
 					refeval.ConstU(next, 8), refeval.ConstU(next, 8), 8)}}
+			}
+			if r.Chance(1, 3) {
+				// pc-relative: the arithmetic sits above the condition, the
+				// target only becomes a constant once the condition is taken out
+				in.Name = "branch-next-relative"
+				l := uint64(in.Len)
+				in.Effs = []Eff{{Reg: ipKey, W: 8, Val: refeval.BinJ(int(expr.Add), refeval.ConstU(in.Addr, 8),
+					refeval.LessJ(refeval.RegJ(g.reg(), 8), refeval.RegJ(g.reg(), 8), refeval.ConstU(l, 8), refeval.ConstU(l, 8), 8), 8)}}
 			}
 			if r.Chance(1, 3) {
 				in.Effs = append(in.Effs, Eff{Reg: g.reg(), W: 8, Val: g.operand(8)})
